@@ -190,7 +190,7 @@ func checkDomainless(r *rec, p gmsl.PDU, f *fields, b *built, after string) *hx.
 }
 
 // applyOp performs one operation of the model on the real event.
-func applyOp(ver string, impl gmsl.IRoomVersion, p gmsl.PDU, op string) (gmsl.PDU, error) {
+func applyOp(ver string, impl gmsl.IRoomVersion, p gmsl.PDU, op string, sp spelling) (gmsl.PDU, error) {
 	switch op {
 	case "RU":
 		return impl.NewEventFromUntrustedJSON(append([]byte(nil), p.JSON()...))
@@ -209,10 +209,10 @@ func applyOp(ver string, impl gmsl.IRoomVersion, p gmsl.PDU, op string) (gmsl.PD
 	case "SF":
 		return p, p.SetUnsignedField("redacted_because", map[string]string{"type": "m.room.redaction"})
 	case "AS1":
-		s := signerFor(ver, "hs1", "k2")
+		s := signerFor(ver, "hs1", "k2", sp)
 		return p.Sign(s.name, s.key, s.priv), nil
 	case "AS2":
-		s := signerFor(ver, "hs2", "k1")
+		s := signerFor(ver, "hs2", "k1", sp)
 		return p.Sign(s.name, s.key, s.priv), nil
 	case "RD":
 		p.Redact()
@@ -272,6 +272,7 @@ func replayC03(i int, raw json.RawMessage, seed int64) hx.Result {
 	nt := ntOf(&r)
 	if res := runC03(&r, seed, i); res != nil {
 		res.NT = nt
+		blameSpelling(&r, seed, i, res)
 		if r.Refuse && r.Proto.Lim != "" && r.Proto.Lim != "none" {
 			res.Key = "C03/build-or-refuse/len=" + r.Proto.Lim + "/" + strings.TrimPrefix(res.Key, "C03/")
 			res.What = fmt.Sprintf("the proto-event's field %s is over the 255 limit, so it is not an event of room version %s: %s", r.Proto.Lim, r.Ver, res.What)
@@ -283,6 +284,50 @@ func replayC03(i int, raw json.RawMessage, seed int64) hx.Result {
 		return *res
 	}
 	return hx.Result{OK: true, NT: nt}
+}
+
+// blameSpelling: a behaviour that fails under a signer identity spelt otherwise than plainly is repeated with the
+// plainer spellings; if it passes there, the spelling is what the failure needs and becomes part of the canonical key.
+func blameSpelling(r *rec, seed int64, idx int, res *hx.Result) {
+	sp := r.Proto.spelling()
+	if sp == plainSpelling || isPseudo(r.Ver) {
+		return
+	}
+	failsWith := func(t spelling) bool {
+		c := *r
+		c.Steps = append([]step(nil), r.Steps...)
+		c.Proto.SName, c.Proto.SKey = t.Name, t.Key
+		if r.Proto2 != nil {
+			p2 := *r.Proto2
+			p2.SName, p2.SKey = t.Name, t.Key
+			c.Proto2 = &p2
+		}
+		var again *hx.Result
+		if pan := guard(func() { again = runC03(&c, seed, idx) }); pan != "" {
+			return true
+		}
+		return again != nil && again.Key == res.Key
+	}
+	if failsWith(plainSpelling) {
+		return // fails however the identity is spelt
+	}
+	s1 := signerFor(r.Ver, r.Proto.Origin, r.Proto.SigKey, sp)
+	s0 := signerFor(r.Ver, r.Proto.Origin, r.Proto.SigKey, plainSpelling)
+	var dim, example string
+	switch {
+	case sp.Key != "alnum" && failsWith(spelling{"dns", sp.Key}):
+		dim = "signer-key-id=" + sp.Key
+		example = fmt.Sprintf("key ID %q (class %s)", s1.key, sp.Key)
+	case sp.Name != "dns" && failsWith(spelling{sp.Name, "alnum"}):
+		dim = "signer-name=" + sp.Name
+		example = fmt.Sprintf("server name %q (class %s)", s1.name, sp.Name)
+	default:
+		dim = "signer-name=" + sp.Name + "+key-id=" + sp.Key
+		example = fmt.Sprintf("server name %q with key ID %q", s1.name, s1.key)
+	}
+	res.Key += "/" + dim
+	res.What = fmt.Sprintf("only when the signer identity is spelt with %s - legitimate per the Matrix specification's grammar; the same behaviour "+
+		"under the plainly spelt identity (%s, %s) passes: %s", example, s0.name, s0.key, res.What)
 }
 
 func ntOf(r *rec) string {
@@ -304,6 +349,9 @@ func ntOf(r *rec) string {
 	}
 	if r.Proto.Num != "" && r.Proto.Num != "none" {
 		dl += fmt.Sprintf("|num=%s|refuse=%v", r.Proto.Num, r.Refuse)
+	}
+	if r.Fam == "sid" {
+		dl += "|signer:" + r.Proto.spelling().String()
 	}
 	return fmt.Sprintf("%s|fmt%d|algo%d%s|%s|%s|%s|%s|%v", r.Fam, r.IDFmt, algoOf(r.Ver), dl, r.Proto.Type, strings.Join(ops, ","),
 		strings.Join(reds, ""), r.F, r.Same)
@@ -366,7 +414,7 @@ func unobserved(r *rec, impl gmsl.IRoomVersion, b *built, base *fields, idx int)
 	}
 	red := false
 	for _, s := range r.Steps {
-		if p, err = applyOp(r.Ver, impl, p, s.Op); err != nil || p == nil {
+		if p, err = applyOp(r.Ver, impl, p, s.Op, b.sp); err != nil || p == nil {
 			return fail("C03/unobserved/op-error/"+opName(s.Op), fmt.Sprintf("%s fails when no accessor was read before: %v", opName(s.Op), err), nil, fmt.Sprint(err))
 		}
 		red = s.Red
@@ -481,7 +529,7 @@ func runC03(r *rec, seed int64, idx int) *hx.Result {
 				return res
 			}
 		}
-		q, err := applyOp(r.Ver, impl, p, s.Op)
+		q, err := applyOp(r.Ver, impl, p, s.Op, b.sp)
 		if err != nil {
 			return fail("C03/op-error/"+opName(s.Op), fmt.Sprintf("%s fails on a built event (room version %s, step %d): %v", opName(s.Op), r.Ver, n+1, err), nil, err.Error())
 		}
